@@ -16,6 +16,7 @@ pub struct Stats {
     pub ops: u64,
     pub sim_time_ns: u64,
     pub max_call_ns: u64,
+    pub max_call_alloc: u64,
 }
 
 impl Stats {
@@ -46,6 +47,7 @@ impl Stats {
         self.ops += other.ops;
         self.sim_time_ns += other.sim_time_ns;
         self.max_call_ns = self.max_call_ns.max(other.max_call_ns);
+        self.max_call_alloc = self.max_call_alloc.max(other.max_call_alloc);
     }
 
     pub fn with_prefix(&self, prefix: &str) -> BTreeMap<String, u64> {
